@@ -63,14 +63,14 @@ func Hex(s string) string {
 
 // Flags of type entries.
 const (
-	FlagVariadic  = 1 << 10 // signature
-	FlagHasRecv   = 1 << 11 // signature
-	FlagUnsafePtr = 1 << 12 // basic
+	FlagVariadic   = 1 << 10 // signature
+	FlagHasRecv    = 1 << 11 // signature
+	FlagUnsafePtr  = 1 << 12 // basic
 	FlagUntypedNil = 1 << 13 // basic
-	FlagInvalid   = 1 << 14 // basic
-	FlagHasTParam = 1 << 15 // the type mentions a type parameter somewhere
+	FlagInvalid    = 1 << 14 // basic
+	FlagHasTParam  = 1 << 15 // the type mentions a type parameter somewhere
 	FlagEmptyIface = 1 << 16 // interface without methods and without type terms
-	FlagTruncated = 1 << 20 // not expanded (deeper than maxDepth)
+	FlagTruncated  = 1 << 20 // not expanded (deeper than maxDepth)
 )
 
 type tentry struct {
